@@ -42,8 +42,25 @@ func encode(p lorawan.PHYPayload) (b []byte, s string) {
 	return b, cq.Ok(cq.Bytes(b))
 }
 
+// reused is decoded into again and again: a frame accepted into a used value must be the frame
+// a fresh decode gives (and re-encode to the received bytes just the same)
+var reused lorawan.PHYPayload
+
 func add(s *cases.Set, b []byte, kind string) {
 	q, o, ok := decode(b)
+	func() {
+		defer func() { _ = recover() }()
+		err := reused.UnmarshalBinary(append([]byte{}, b...))
+		if (err == nil) != ok {
+			s.Fail(cases.GoFail{Key: fmt.Sprintf("reused-decode:%x", b), What: "decoding into a used PHYPayload accepts/rejects differently from a fresh one", Replay: map[string]interface{}{"bytes": fmt.Sprintf("%x", b)}})
+			return
+		}
+		if err == nil {
+			if t := cq.Ok(framefmt.Phy(reused, framefmt.DecodedFOptsLen(b))); t != o {
+				s.Fail(cases.GoFail{Key: fmt.Sprintf("reused-decode:%x", b), What: "decoding into a used PHYPayload gives " + t + " instead of " + o, Replay: map[string]interface{}{"bytes": fmt.Sprintf("%x", b)}})
+			}
+		}
+	}()
 	ore, oagain := cq.Err, cq.Err
 	if ok {
 		var b2 []byte
